@@ -1,15 +1,15 @@
-import TsVerif.C17.MultiOrder
+import TsVerif.C17.Dyn
 /-!
-# C17: the merged multi-layer stream is well nested (static layers, `CrossNice`)
+# C17: the merged multi-layer stream is well nested
 
-For layers given as static data (no injection capture: all layers are created by
-`Highlighter::highlight`, i.e. the root and its combined-injection layers), whose captures are in
-order inside each layer (`DefsNice`) and whose span sets are pairwise laminar and tie-free at starts
-(`crossNice`, decidable, evaluated on the real cases by the driver): keep the GLOBAL stack of the ends
-of the open spans by stack discipline — push the capture's end at every `HighlightStart`, pop at
-every `HighlightEnd`.  Then at every `HighlightEnd` the top of that stack is exactly the end being
-closed (the End closes the most recently opened still-open span, and that span ends here), the stack
-is always sorted by end and is a permutation of all layers' `highlight_end_stack`s.
+Layers whose captures are in order inside each layer (`DefsNice`), whose span captures are pairwise
+laminar across layers with start ties oriented the way the code emits them (`crossNice`), created
+either by `Highlighter::highlight` or DURING the run by injection captures (`refsUp`, every id
+referenced at most once, `injTieOkP`): keep the GLOBAL stack of the ends of the open spans by stack
+discipline — push the capture's end at every `HighlightStart`, pop at every `HighlightEnd`.  Then at
+every `HighlightEnd` the top of that stack is exactly the end being closed (the End closes the most
+recently opened still-open span, and that span ends here), the stack is always sorted by end and is
+a permutation of all layers' `highlight_end_stack`s.
 -/
 namespace TsVerif.C17
 
@@ -61,34 +61,6 @@ theorem ids_sortLayers (ls : List MLayer) (h : (ls.map (·.id)).Nodup) : ((sortL
 def noInj (defs : List LayerDef) : Bool :=
   defs.all fun d => d.caps.all fun c => match c.kind with | .hl _ => true | .inj _ => false
 
-/-- The capture yields a recognised highlight. -/
-def hlSome (c : RCap) : Bool := match c.kind with | .hl (some _) => true | _ => false
-
-/-- The captures that can become a SPAN: those whose node has some capture with a recognised
-highlight in the same layer (`collapse` keeps the last such capture of the node). -/
-def spanCaps (d : LayerDef) : List RCap :=
-  d.caps.filter fun c => d.caps.any fun c' => c'.node == c.node && hlSome c'
-
-/-- `collapse` only returns a highlight that some capture of the node carries. -/
-theorem collapse_fst_some {node hh : Nat} : ∀ (caps : List RCap) (h : Option Nat),
-    (collapse node h caps).1 = some hh → h = some hh ∨ ∃ c' ∈ caps, c'.node = node ∧ c'.kind = .hl (some hh) := by
-  intro caps
-  induction caps with
-  | nil => intro h hc; exact Or.inl (by simpa [collapse] using hc)
-  | cons x r ih =>
-    intro h hc
-    unfold collapse at hc
-    by_cases hx : x.node = node
-    · simp only [hx, if_true] at hc
-      rcases ih _ hc with h1 | ⟨c', h1, h2, h3⟩
-      · refine Or.inr ⟨x, List.mem_cons_self, hx, ?_⟩
-        cases hk : x.kind with
-        | hl h' => rw [hk] at h1; simp only at h1; rw [h1]
-        | inj ids => rw [hk] at h1; simp at h1
-      · exact Or.inr ⟨c', List.mem_cons_of_mem _ h1, h2, h3⟩
-    · simp only [hx, if_false] at hc
-      exact Or.inl hc
-
 /-- Different layers, over the captures that can become spans: a capture that starts strictly
 inside another layer's capture ends inside it (laminar); two non-empty captures that start at the
 same byte belong to layers of different depths and the SHALLOWER layer's capture is not the longer
@@ -134,13 +106,6 @@ theorem crossNice_spec {defs : List LayerDef} (h : crossNice defs = true) {i j :
   simp only [Bool.and_eq_true, bne_iff_ne, ne_eq, Bool.or_eq_true, Bool.not_eq_true', decide_eq_true_eq,
     Bool.and_eq_false_iff, decide_eq_false_iff_not, beq_iff_eq, beq_eq_false_iff_ne] at h3
   refine ⟨fun h4 h5 => ?_, fun h4 h5 h6 => ⟨?_, fun h7 => ?_⟩⟩ <;> omega
-
-/-- Layer identity and provenance. -/
-structure NInv (defs : List LayerDef) (st : MSt) : Prop where
-  ids : (st.layers.map (·.id)).Nodup
-  src : ∀ y ∈ st.layers, ∃ d, defs[y.id]? = some d ∧ y.depth = d.depth ∧ (∀ c ∈ y.caps, c ∈ d.caps) ∧
-    ∀ e ∈ y.ends, ∃ c0 ∈ spanCaps d, c0.e = e ∧ c0.s ≤ st.off ∧
-      (c0.s = st.off → ∀ h' ∈ st.layers, y.depth < h'.depth → ∀ c ∈ h'.caps, c.s ≠ st.off)
 
 /-- The global stack of open ends kept by stack discipline: `none` = an End found a top that is
 not the end being closed. -/
@@ -265,10 +230,78 @@ theorem sortKey_depth {y : MLayer} {k : Key} (h : sortKey y = some k) : k.2.2 = 
   · simp only [Option.some.injEq] at h; rw [← h]
   · simp at h
 
+/-! ## end stacks through `insert_layer` -/
+
+theorem cntE_insGo (a : Nat) (k : Key) (nl : MLayer) : ∀ ls : List MLayer,
+    List.count a (allEnds (insGo k nl ls)) = List.count a nl.ends + List.count a (allEnds ls) := by
+  intro ls
+  induction ls with
+  | nil => simp [insGo, allEnds]
+  | cons li r ih =>
+    unfold insGo
+    cases hk : sortKey li with
+    | none =>
+      simp only
+      rw [allEnds_cons, (sortKey_none hk).2, ih]
+      simp
+    | some ki =>
+      simp only
+      split
+      · simp only [allEnds_cons, List.count_append]
+      · simp only [allEnds_cons, List.count_append, ih]; omega
+
+theorem cntE_insertLayer (a : Nat) (ls : List MLayer) (nl : MLayer) (he : nl.ends = []) :
+    List.count a (allEnds (insertLayer ls nl)) = List.count a (allEnds ls) := by
+  unfold insertLayer
+  cases sortKey nl with
+  | none => rfl
+  | some k =>
+    cases ls with
+    | nil => simp [allEnds, he]
+    | cons l0 rest =>
+      simp only [allEnds_cons, List.count_append, cntE_insGo, he]
+      simp
+
+theorem cntE_fold (defs : List LayerDef) (a : Nat) : ∀ (ids : List Nat) (ls : List MLayer),
+    List.count a (allEnds (ids.foldl (insertById defs) ls)) = List.count a (allEnds ls) := by
+  intro ids
+  induction ids with
+  | nil => intro ls; rfl
+  | cons j r ih =>
+    intro ls
+    simp only [List.foldl_cons]
+    rw [ih]
+    unfold insertById
+    cases hm : mkLayer defs j with
+    | none => rfl
+    | some nl =>
+      simp only
+      obtain ⟨_, _, _, _, _, he⟩ := mkLayer_some hm
+      exact cntE_insertLayer a ls nl he
+
+theorem allEnds_fold_insertById (defs : List LayerDef) (ids : List Nat) (ls : List MLayer) :
+    (allEnds (ids.foldl (insertById defs) ls)).Perm (allEnds ls) :=
+  List.perm_iff_count.mpr fun a => cntE_fold defs a ids ls
+
+/-- Layer identity and provenance.  `pend`: the ids the state owns (live ids and the trees of the
+pending injection references) are distinct.  `src`: every live layer is a suffix of its table entry;
+every open end is the end of a span capture in the consumed prefix that started at or before the
+offset, and if it started AT the offset then no DEEPER live layer has a pending span capture there. -/
+structure NInv (defs : List LayerDef) (st : MSt) : Prop where
+  pend : (allP defs st.layers).Nodup
+  src : ∀ y ∈ st.layers, ∃ d pre, defs[y.id]? = some d ∧ y.depth = d.depth ∧ d.caps = pre ++ y.caps ∧
+    ∀ e ∈ y.ends, ∃ c0 ∈ pre, isSpan d c0 = true ∧ c0.e = e ∧ c0.s ≤ st.off ∧
+      (c0.s = st.off → ∀ h' ∈ st.layers, y.depth < h'.depth → ∀ dh, defs[h'.id]? = some dh →
+        ∀ c ∈ h'.caps, isSpan dh c = true → c.s ≠ st.off)
+
+theorem NInv.ids {defs : List LayerDef} {st : MSt} (h : NInv defs st) : (st.layers.map (·.id)).Nodup :=
+  nodup_ids_of_allP h.pend
+
 /-- One iteration: the End closes the top of the global stack; the stack stays sorted and a
-permutation of all end stacks; identity and provenance are kept. -/
-theorem stepM_well_nested (defs : List LayerDef) (_hn : DefsNice defs) (hni : noInj defs = true)
-    (hx : crossNice defs = true) (n : Nat) (st st' : MSt) (evs : List Ev) (G : List Nat)
+permutation of all end stacks; identity and provenance are kept — also through an injection capture
+that creates layers. -/
+theorem stepM_well_nested (defs : List LayerDef) (hn : DefsNice defs) (hr : refsUp defs = true)
+    (hx : crossNice defs = true) (ht : injTieOkP defs = true) (n : Nat) (st st' : MSt) (evs : List Ev) (G : List Nat)
     (ho : OInv st) (hv : NInv defs st) (hGs : G.Pairwise (· ≤ ·)) (hGp : G.Perm (allEnds st.layers))
     (h : stepM defs n st = .more evs st') :
     ∃ G', ghostStep st evs G = some G' ∧ G'.Pairwise (· ≤ ·) ∧ G'.Perm (allEnds st'.layers) ∧ NInv defs st' := by
@@ -282,49 +315,61 @@ theorem stepM_well_nested (defs : List LayerDef) (_hn : DefsNice defs) (hni : no
     obtain ⟨k, hk, hmin⟩ := sorted_head_min hs
     have hl : LInv off l := ho.linv l (List.mem_cons_self)
     have hrestI : ∀ y ∈ rest, LInv off y := fun y hy => ho.linv y (List.mem_cons_of_mem _ hy)
-    obtain ⟨d, hd, hdep, hcapsd, hendsd⟩ := hv.src l (List.mem_cons_self)
+    obtain ⟨d, pre, hd, hdep, hpre, hendsd⟩ := hv.src l (List.mem_cons_self)
     simp only at hendsd
+    have hcapsd : ∀ c ∈ l.caps, c ∈ d.caps := fun c hc => by rw [hpre]; exact List.mem_append_right _ hc
     have hids : (∀ x ∈ rest, ¬x.id = l.id) ∧ (rest.map (·.id)).Nodup := by simpa using hv.ids
     have hidl : ∀ y ∈ rest, y.id ≠ l.id := fun y hy => hids.1 y hy
     have hperm_new : ∀ l' : MLayer, (allEnds (sortLayers (l' :: rest))).Perm (l'.ends ++ allEnds rest) := by
       intro l'
       have := allEnds_sortLayers (l' :: rest)
       rwa [allEnds_cons] at this
-    -- a tie clause of this state transfers to the next state (captures shrink, the offset grows)
-    have tieT : ∀ (dy : Nat) (c0 : RCap) (l' : MLayer) (off' : Nat), l'.depth = l.depth → (∀ c ∈ l'.caps, c ∈ l.caps) →
-        off ≤ off' → c0.s ≤ off →
-        (c0.s = off → ∀ h' ∈ l :: rest, dy < h'.depth → ∀ c ∈ h'.caps, c.s ≠ off) →
-        (c0.s = off' → ∀ h' ∈ sortLayers (l' :: rest), dy < h'.depth → ∀ c ∈ h'.caps, c.s ≠ off') := by
-      intro dy c0 l' off' hdl hcl hoff hs0 hold heq h' hh' hlt c hc
+    -- a tie clause of this state transfers to a next state whose layers come from the old ones
+    have tieT : ∀ (dy : Nat) (c0 : RCap) (l' : MLayer) (off' : Nat), l'.id = l.id → l'.depth = l.depth →
+        (∀ c ∈ l'.caps, c ∈ l.caps) → off ≤ off' → c0.s ≤ off →
+        (c0.s = off → ∀ h' ∈ l :: rest, dy < h'.depth → ∀ dh, defs[h'.id]? = some dh →
+          ∀ c ∈ h'.caps, isSpan dh c = true → c.s ≠ off) →
+        (c0.s = off' → ∀ h' ∈ l' :: rest, dy < h'.depth → ∀ dh, defs[h'.id]? = some dh →
+          ∀ c ∈ h'.caps, isSpan dh c = true → c.s ≠ off') := by
+      intro dy c0 l' off' hid hdl hcl hoff hs0 hold heq h' hh' hlt dh hdh c hc hsp
       have hoo : off' = off := by omega
       rw [hoo]
-      rcases List.mem_cons.mp (mem_sortLayers hh') with hl' | hr
-      · rw [hl'] at hlt hc
-        exact hold (by omega) l List.mem_cons_self (by rw [← hdl]; exact hlt) c (hcl c hc)
-      · exact hold (by omega) h' (List.mem_cons_of_mem _ hr) hlt c hc
-    -- the next state's NInv when the head keeps its id and depth, its captures shrink and the offset grows
-    have mkN : ∀ (l' : MLayer) (off' : Nat) (last' : Option (Nat × Nat × Nat)), l'.id = l.id → l'.depth = l.depth →
-        off ≤ off' → (∀ c ∈ l'.caps, c ∈ l.caps) →
-        (∀ e ∈ l'.ends, ∃ c0 ∈ spanCaps d, c0.e = e ∧ c0.s ≤ off' ∧
-          (c0.s = off' → ∀ h' ∈ sortLayers (l' :: rest), l'.depth < h'.depth → ∀ c ∈ h'.caps, c.s ≠ off')) →
+      rcases List.mem_cons.mp hh' with hl' | hr'
+      · rw [hl'] at hlt hc hdh
+        exact hold (by omega) l List.mem_cons_self (by rw [← hdl]; exact hlt) dh (by rw [← hid]; exact hdh) c (hcl c hc) hsp
+      · exact hold (by omega) h' (List.mem_cons_of_mem _ hr') hlt dh hdh c hc hsp
+    -- the next state's NInv when the head keeps its id and depth, drops a prefix of its captures and
+    -- the offset grows
+    have mkN : ∀ (l' : MLayer) (off' : Nat) (last' : Option (Nat × Nat × Nat)) (mid : List RCap),
+        l'.id = l.id → l'.depth = l.depth → off ≤ off' → l.caps = mid ++ l'.caps →
+        (∀ e ∈ l'.ends, ∃ c0 ∈ pre ++ mid, isSpan d c0 = true ∧ c0.e = e ∧ c0.s ≤ off' ∧
+          (c0.s = off' → ∀ h' ∈ sortLayers (l' :: rest), l'.depth < h'.depth → ∀ dh, defs[h'.id]? = some dh →
+            ∀ c ∈ h'.caps, isSpan dh c = true → c.s ≠ off')) →
         NInv defs { layers := sortLayers (l' :: rest), off := off', last := last' } := by
-      intro l' off' last' hid hdl hoff hcaps hends
-      refine ⟨ids_sortLayers _ (by simpa [hid] using hv.ids), ?_⟩
+      intro l' off' last' mid hid hdl hoff hmid hends
+      have hcl : ∀ c ∈ l'.caps, c ∈ l.caps := fun c hc => by rw [hmid]; exact List.mem_append_right _ hc
+      refine ⟨nodup_head_suffix hid hmid hv.pend, ?_⟩
       intro y hy
       rcases List.mem_cons.mp (mem_sortLayers hy) with hyl | hy'
       · rw [hyl]
-        exact ⟨d, by rw [hid]; exact hd, by rw [hdl]; exact hdep, fun c hc => hcapsd c (hcaps c hc), hends⟩
-      · obtain ⟨dy, h1, h1', h2, h3⟩ := hv.src y (List.mem_cons_of_mem _ hy')
-        exact ⟨dy, h1, h1', h2, fun e he => by
-          obtain ⟨c0, hc0, he0, hs0, ht0⟩ := h3 e he
+        exact ⟨d, pre ++ mid, by rw [hid]; exact hd, by rw [hdl]; exact hdep,
+          by rw [hpre, hmid, List.append_assoc], hends⟩
+      · obtain ⟨dy, prey, h1, h1', h2, h3⟩ := hv.src y (List.mem_cons_of_mem _ hy')
+        exact ⟨dy, prey, h1, h1', h2, fun e he => by
+          obtain ⟨c0, hc0, hsp0, he0, hs0, ht0⟩ := h3 e he
           simp only at hs0 ht0
-          exact ⟨c0, hc0, he0, by simp only; omega, tieT y.depth c0 l' off' hdl hcaps hoff hs0 ht0⟩⟩
-    have keepEnds : ∀ (l' : MLayer) (off' : Nat), l'.depth = l.depth → (∀ c ∈ l'.caps, c ∈ l.caps) → off ≤ off' →
-        ∀ e ∈ l.ends, ∃ c0 ∈ spanCaps d, c0.e = e ∧ c0.s ≤ off' ∧
-          (c0.s = off' → ∀ h' ∈ sortLayers (l' :: rest), l'.depth < h'.depth → ∀ c ∈ h'.caps, c.s ≠ off') := by
-      intro l' off' hdl hcl hoff e he
-      obtain ⟨c0, hc0, he0, hs0, ht0⟩ := hendsd e he
-      exact ⟨c0, hc0, he0, by omega, by rw [hdl]; exact tieT l.depth c0 l' off' hdl hcl hoff hs0 ht0⟩
+          exact ⟨c0, hc0, hsp0, he0, by simp only; omega, fun heq h' hh' =>
+            tieT y.depth c0 l' off' hid hdl hcl hoff hs0 ht0 heq h' (mem_sortLayers hh')⟩⟩
+    have keepEnds : ∀ (l' : MLayer) (off' : Nat) (mid : List RCap), l'.id = l.id → l'.depth = l.depth →
+        l.caps = mid ++ l'.caps → off ≤ off' →
+        ∀ e ∈ l.ends, ∃ c0 ∈ pre ++ mid, isSpan d c0 = true ∧ c0.e = e ∧ c0.s ≤ off' ∧
+          (c0.s = off' → ∀ h' ∈ sortLayers (l' :: rest), l'.depth < h'.depth → ∀ dh, defs[h'.id]? = some dh →
+            ∀ c ∈ h'.caps, isSpan dh c = true → c.s ≠ off') := by
+      intro l' off' mid hid hdl hmid hoff e he
+      have hcl : ∀ c ∈ l'.caps, c ∈ l.caps := fun c hc => by rw [hmid]; exact List.mem_append_right _ hc
+      obtain ⟨c0, hc0, hsp0, he0, hs0, ht0⟩ := hendsd e he
+      exact ⟨c0, List.mem_append_left _ hc0, hsp0, he0, by omega, fun heq h' hh' => by
+        rw [hdl]; exact tieT l.depth c0 l' off' hid hdl hcl hoff hs0 ht0 heq h' (mem_sortLayers hh')⟩
     have hGp' : G.Perm (l.ends ++ allEnds rest) := by rw [← allEnds_cons]; exact hGp
     cases hact : action l with
     | final =>
@@ -367,8 +412,8 @@ theorem stepM_well_nested (defs : List LayerDef) (_hn : DefsNice defs) (hni : no
           rw [hgeq] at h1
           exact (List.Perm.cons_inv h1).trans (hperm_new { l with ends := ends' }).symm
         · have hoff' : off ≤ (emitM off eb .stop).2 := by unfold emitM; split <;> simp <;> omega
-          exact mkN _ _ _ rfl rfl hoff' (fun c hc => hc) (fun e he' =>
-            keepEnds { l with ends := ends' } _ rfl (fun c hc => hc) hoff' e (by rw [he]; exact List.mem_cons_of_mem _ he'))
+          exact mkN _ _ _ [] rfl rfl hoff' rfl (fun e he' =>
+            keepEnds { l with ends := ends' } _ [] rfl rfl rfl hoff' e (by rw [he]; exact List.mem_cons_of_mem _ he'))
     | take c caps' =>
       rw [hact] at h
       simp only at h
@@ -376,58 +421,124 @@ theorem stepM_well_nested (defs : List LayerDef) (_hn : DefsNice defs) (hni : no
       have hkc := action_take_key hact hk
       have hcd : c ∈ d.caps := hcapsd c (by rw [hc]; exact List.mem_cons_self)
       have htail : ∀ x ∈ caps', x ∈ l.caps := fun x hx => by rw [hc]; exact List.mem_cons_of_mem _ hx
-      have hskip : ∀ cs, (∀ x ∈ cs, x ∈ caps') →
+      have hoc := hl.capsGe c (by rw [hc]; exact List.mem_cons_self)
+      -- the open ends of every layer lie beyond the start of the capture taken
+      have hownGt : ∀ e ∈ l.ends, c.s < e := fun e he =>
+        open_end_gt hl hk (by rw [hkc]; exact keyLt_irrefl _) e he
+      have hrestGt : ∀ y ∈ rest, ∀ e ∈ y.ends, c.s < e := by
+        intro y hy e hey
+        obtain ⟨ky, hky, hge⟩ := hmin y hy
+        rw [hkc] at hge
+        exact open_end_gt (hrestI y hy) hky hge e hey
+      have hskip : ∀ (cs mid : List RCap), l.caps = mid ++ cs →
           ∃ G', ghostStep { layers := l :: rest, off := off, last := last } [] G = some G' ∧ G'.Pairwise (· ≤ ·) ∧
             G'.Perm (allEnds (sortLayers ({ l with caps := cs } :: rest))) ∧
             NInv defs { layers := sortLayers ({ l with caps := cs } :: rest), off := off, last := last } := by
-        intro cs hcs
-        refine ⟨G, by simp [ghostStep], hGs, ?_, mkN _ _ _ rfl rfl (Nat.le_refl _) (fun x hx => htail x (hcs x hx))
-          (keepEnds { l with caps := cs } off rfl (fun x hx => htail x (hcs x hx)) (Nat.le_refl _))⟩
+        intro cs mid hmid
+        refine ⟨G, by simp [ghostStep], hGs, ?_, mkN _ _ _ mid rfl rfl (Nat.le_refl _) hmid
+          (keepEnds { l with caps := cs } off mid rfl rfl hmid (Nat.le_refl _))⟩
         exact hGp'.trans (hperm_new { l with caps := cs }).symm
       cases hkind : c.kind with
       | inj ids =>
-        have h1 := List.all_eq_true.mp hni d (List.mem_of_getElem? hd)
-        have h2 := List.all_eq_true.mp h1 c hcd
-        rw [hkind] at h2; simp at h2
+        rw [hkind] at h
+        simp only [stepInj, StepRes.more.injEq] at h
+        rw [← h.1, ← h.2]
+        have hinj : ∀ j ∈ ids, ∀ d', defs[j]? = some d' → ∀ c' ∈ d'.caps, c.s ≤ c'.s :=
+          hn.2 d (List.mem_of_getElem? hd) c hcd ids hkind
+        have hji : ∀ j ∈ ids, j ∈ injIds c := fun j hj => by unfold injIds; rw [hkind]; exact hj
+        have hdcaps : d.caps = pre ++ c :: caps' := by rw [hpre, hc]
+        have hmemF := mem_fold_insertById defs ids ({ l with caps := caps' } :: rest)
+        -- a tie clause of this state holds against the new layer list
+        have newT : ∀ (yd kk : Nat) (dk : LayerDef) (c0 : RCap), defs[kk]? = some dk → yd = dk.depth →
+            (if kk = l.id then c0 ∈ pre ∧ isSpan d c0 = true else c0 ∈ spanCaps dk) → c.s < c0.e → c0.s ≤ off →
+            (c0.s = off → ∀ h' ∈ l :: rest, yd < h'.depth → ∀ dh, defs[h'.id]? = some dh →
+              ∀ c ∈ h'.caps, isSpan dh c = true → c.s ≠ off) →
+            (c0.s = off → ∀ h' ∈ sortLayers (ids.foldl (insertById defs) ({ l with caps := caps' } :: rest)),
+              yd < h'.depth → ∀ dh, defs[h'.id]? = some dh → ∀ c ∈ h'.caps, isSpan dh c = true → c.s ≠ off) := by
+          intro yd kk dk c0 hkk hyd ha hgt hs0 hold heq h' hh' hlt dh hdh c'' hc'' hsp
+          rcases hmemF h' (mem_sortLayers hh') with hold' | ⟨j, hj, hm⟩
+          · exact tieT yd c0 { l with caps := caps' } off rfl rfl htail (Nat.le_refl _) hs0 hold heq h' hold' hlt dh hdh c'' hc'' hsp
+          · obtain ⟨dj, hdj, hidj, hdepj, hcapsj, _⟩ := mkLayer_some hm
+            intro hcs
+            rw [hidj, hdj] at hdh
+            have hdd : dj = dh := Option.some.inj hdh
+            subst hdd
+            rw [hcapsj] at hc''
+            have h1 := hinj j hj dj hdj c'' hc''
+            have hcs' : c''.s = c.s := by omega
+            have := injTieOkP_spec ht hd hdcaps (hji j hj) hdj (List.mem_filter.mpr ⟨hc'', hsp⟩) hcs' hkk ha
+              (by omega) (by omega)
+            omega
+        refine ⟨G, by simp [ghostStep], hGs, ?_, ?_⟩
+        · refine hGp'.trans (((allEnds_sortLayers _).trans (allEnds_fold_insertById defs ids _)).trans ?_).symm
+          rw [allEnds_cons]
+        · refine ⟨nodup_inj_step hr hc hkind hv.pend, ?_⟩
+          intro y hy
+          rcases hmemF y (mem_sortLayers hy) with hyo | ⟨j, hj, hm⟩
+          · rcases List.mem_cons.mp hyo with hyl | hy'
+            · rw [hyl]
+              refine ⟨d, pre ++ [c], hd, hdep, by rw [hdcaps]; simp, ?_⟩
+              intro e he
+              obtain ⟨c0, hc0, hsp0, he0, hs0, ht0⟩ := hendsd e he
+              exact ⟨c0, List.mem_append_left _ hc0, hsp0, he0, hs0,
+                newT l.depth l.id d c0 hd hdep (by rw [if_pos rfl]; exact ⟨hc0, hsp0⟩)
+                  (by rw [he0]; exact hownGt e he) hs0 ht0⟩
+            · obtain ⟨dy, prey, h1, h1', h2, h3⟩ := hv.src y (List.mem_cons_of_mem _ hy')
+              refine ⟨dy, prey, h1, h1', h2, ?_⟩
+              intro e he
+              obtain ⟨c0, hc0, hsp0, he0, hs0, ht0⟩ := h3 e he
+              simp only at hs0 ht0
+              exact ⟨c0, hc0, hsp0, he0, hs0,
+                newT y.depth y.id dy c0 h1 h1' (by
+                    rw [if_neg (hidl y hy')]
+                    exact List.mem_filter.mpr ⟨by rw [h2]; exact List.mem_append_left _ hc0, hsp0⟩)
+                  (by rw [he0]; exact hrestGt y hy' e he) hs0 ht0⟩
+          · obtain ⟨dj, hdj, hidj, hdepj, hcapsj, hendsj⟩ := mkLayer_some hm
+            refine ⟨dj, [], by rw [hidj]; exact hdj, hdepj, by rw [hcapsj]; rfl, ?_⟩
+            intro e he
+            rw [hendsj] at he
+            simp at he
       | hl hh =>
         rw [hkind] at h
         simp only at h
         split at h
         · simp only [stepSkip, StepRes.more.injEq] at h
-          rw [← h.1, ← h.2]; exact hskip caps' (fun x hx => hx)
-        · split at h
+          rw [← h.1, ← h.2]; exact hskip caps' [c] (by rw [hc]; rfl)
+        · obtain ⟨m0, hm0⟩ := collapse_suffix c.node caps' hh
+          have hmid0 : l.caps = (c :: m0) ++ (collapse c.node hh caps').2 := by
+            rw [hc, List.cons_append, ← hm0]
+          split at h
           · rename_i hh2 hcol
             simp only [stepStart, StepRes.more.injEq] at h
             rw [← h.1, ← h.2]
-            have hcsp : c ∈ spanCaps d := by
-              unfold spanCaps
-              refine List.mem_filter.mpr ⟨hcd, List.any_eq_true.mpr ?_⟩
+            have hcsp : isSpan d c = true := by
+              unfold isSpan
+              refine List.any_eq_true.mpr ?_
               rcases collapse_fst_some caps' hh hcol with h1 | ⟨c', h1, h2, h3⟩
               · exact ⟨c, hcd, by simp [hlSome, hkind, h1]⟩
               · exact ⟨c', hcapsd c' (htail c' h1), by simp [hlSome, h3, h2]⟩
+            have hcspm : c ∈ spanCaps d := List.mem_filter.mpr ⟨hcd, hcsp⟩
             -- the new span ends at or before every open end of every layer
             have hcok := hl.capsok
             rw [hc] at hcok
             obtain ⟨hse, _, _⟩ := capsOkR_cons hcok
-            have hoc := hl.capsGe c (by rw [hc]; exact List.mem_cons_self)
             have hown : ∀ e ∈ l.ends, c.e ≤ e := by
               intro e he
-              have hgt : c.s < e := by
-                exact open_end_gt hl hk (by rw [hkc]; exact keyLt_irrefl _) e he
+              have hgt : c.s < e := hownGt e he
               rcases hl.nest e he c (by rw [hc]; exact List.mem_cons_self) with h1 | h1
               · omega
               · exact h1
             have hother : ∀ e ∈ allEnds rest, c.e ≤ e := by
               intro e he
               obtain ⟨y, hy, hey⟩ := List.mem_flatMap.mp he
-              obtain ⟨ky, hky, hge⟩ := hmin y hy
-              rw [hkc] at hge
-              have hgt := open_end_gt (hrestI y hy) hky hge e hey
-              obtain ⟨dy, hdy, hdepy, _, h3⟩ := hv.src y (List.mem_cons_of_mem _ hy)
-              obtain ⟨c0, hc0, he0, hs0, ht0⟩ := h3 e hey
+              have hgt := hrestGt y hy e hey
+              obtain ⟨dy, prey, hdy, hdepy, hprey, h3⟩ := hv.src y (List.mem_cons_of_mem _ hy)
+              obtain ⟨c0, hc0, hsp0, he0, hs0, ht0⟩ := h3 e hey
               simp only at hs0 ht0
-              have hcn := crossNice_spec hx (hidl y hy) hdy hd hc0 hcsp
-              have hcn' := crossNice_spec hx (Ne.symm (hidl y hy)) hd hdy hcsp hc0
+              have hc0m : c0 ∈ spanCaps dy :=
+                List.mem_filter.mpr ⟨by rw [hprey]; exact List.mem_append_left _ hc0, hsp0⟩
+              have hcn := crossNice_spec hx (hidl y hy) hdy hd hc0m hcspm
+              have hcn' := crossNice_spec hx (Ne.symm (hidl y hy)) hd hdy hcspm hc0m
               by_cases hlt : c0.s < c.s
               · have := hcn.1 hlt (by omega)
                 omega
@@ -437,7 +548,8 @@ theorem stepM_well_nested (defs : List LayerDef) (_hn : DefsNice defs) (hni : no
                   by_cases hdd : d.depth < dy.depth
                   · have := q2 hdd; omega
                   · exfalso
-                    exact ht0 (by omega) l List.mem_cons_self (by omega) c (by rw [hc]; exact List.mem_cons_self) (by omega)
+                    exact ht0 (by omega) l List.mem_cons_self (by omega) d hd c
+                      (by rw [hc]; exact List.mem_cons_self) hcsp (by omega)
                 · omega
             refine ⟨c.e :: G, ?_, ?_, ?_, ?_⟩
             · simp only [ghostStep, getLast_emit_start, hc]
@@ -451,169 +563,95 @@ theorem stepM_well_nested (defs : List LayerDef) (_hn : DefsNice defs) (hni : no
                 intro hx; unfold emitM; split <;> simp <;> omega
               have hoffc : ∀ hx, c.s ≤ (emitM off c.s (.start hx)).2 := by
                 intro hx; unfold emitM; split <;> simp <;> omega
-              refine mkN _ _ _ rfl rfl (hoff' _) (fun x hx => htail x (mem_collapse' hx)) ?_
+              refine mkN _ _ _ (c :: m0) rfl rfl (hoff' _) hmid0 ?_
               intro e he
               rcases List.mem_cons.mp he with rfl | he'
-              · refine ⟨c, hcsp, rfl, hoffc _, ?_⟩
-                intro heq h' hh' hlt c' hc' hcs
-                rcases List.mem_cons.mp (mem_sortLayers hh') with hl' | hr
+              · refine ⟨c, List.mem_append_right _ List.mem_cons_self, hcsp, rfl, hoffc _, ?_⟩
+                intro heq h' hh' hlt dh hdh c' hc' _ hcs
+                rcases List.mem_cons.mp (mem_sortLayers hh') with hl' | hr'
                 · rw [hl'] at hlt; exact absurd hlt (Nat.lt_irrefl _)
-                · obtain ⟨ky, hky, hge⟩ := hmin h' hr
+                · obtain ⟨ky, hky, hge⟩ := hmin h' hr'
                   rw [hkc] at hge
-                  have hle := (key_le_all (hrestI h' hr) hky).1 c' hc'
+                  have hle := (key_le_all (hrestI h' hr') hky).1 c' hc'
                   have hkd := sortKey_depth hky
                   obtain ⟨a1, a2, a3⟩ := ky
                   simp only at hle hkd hlt
                   cases a2 <;> simp [keyLt] at hge <;> omega
-              · exact keepEnds { l with caps := (collapse c.node hh caps').2, ends := c.e :: l.ends } _ rfl
-                  (fun x hx => htail x (mem_collapse' hx)) (hoff' _) e he'
+              · exact keepEnds { l with caps := (collapse c.node hh caps').2, ends := c.e :: l.ends } _ (c :: m0) rfl rfl
+                  hmid0 (hoff' _) e he'
           · simp only [stepSkip, StepRes.more.injEq] at h
-            rw [← h.1, ← h.2]; exact hskip _ (fun x hx => mem_collapse' hx)
+            rw [← h.1, ← h.2]; exact hskip _ (c :: m0) hmid0
 
 /-! ## the initial state and the iteration -/
 
-theorem ids_insGo (k : Key) (nl : MLayer) : ∀ (ls : List MLayer), (ls.map (·.id)).Nodup → nl.id ∉ ls.map (·.id) →
-    ((insGo k nl ls).map (·.id)).Nodup := by
-  intro ls
-  induction ls with
-  | nil => intro _ _; simp [insGo]
-  | cons li r ih =>
-    intro hnd hni
-    have hnd' : li.id ∉ r.map (·.id) ∧ (r.map (·.id)).Nodup := by simpa using hnd
-    have hni' : nl.id ≠ li.id ∧ nl.id ∉ r.map (·.id) := by simpa using hni
-    unfold insGo
-    cases sortKey li with
-    | none => exact ih hnd'.2 hni'.2
-    | some ki =>
-      simp only
-      split
-      · simp only [List.map_cons]
-        exact List.nodup_cons.mpr ⟨by simpa using hni, by simpa using hnd⟩
-      · simp only [List.map_cons]
-        refine List.nodup_cons.mpr ⟨?_, ih hnd'.2 hni'.2⟩
-        intro hmem
-        obtain ⟨y, hy, hyid⟩ := List.mem_map.mp hmem
-        rcases mem_insGo hy with h1 | h1
-        · exact hnd'.1 (by rw [← hyid]; exact List.mem_map_of_mem h1)
-        · rw [h1] at hyid; exact hni'.1 hyid
-
-theorem ids_insertLayer (ls : List MLayer) (nl : MLayer) (hnd : (ls.map (·.id)).Nodup) (hni : nl.id ∉ ls.map (·.id)) :
-    ((insertLayer ls nl).map (·.id)).Nodup := by
-  unfold insertLayer
-  cases sortKey nl with
-  | none => exact hnd
-  | some k =>
-    cases ls with
-    | nil => simp
-    | cons l0 rest =>
-      simp only [List.map_cons]
-      have hnd' : l0.id ∉ rest.map (·.id) ∧ (rest.map (·.id)).Nodup := by simpa using hnd
-      have hni' : nl.id ≠ l0.id ∧ nl.id ∉ rest.map (·.id) := by simpa using hni
-      refine List.nodup_cons.mpr ⟨?_, ids_insGo k nl rest hnd'.2 hni'.2⟩
-      intro hmem
-      obtain ⟨y, hy, hyid⟩ := List.mem_map.mp hmem
-      rcases mem_insGo hy with h1 | h1
-      · exact hnd'.1 (by rw [← hyid]; exact List.mem_map_of_mem h1)
-      · rw [h1] at hyid; exact hni'.1 hyid
-
-theorem ids_fold_insertLayer : ∀ (r base : List MLayer), ((base ++ r).map (·.id)).Nodup →
-    ((r.foldl insertLayer base).map (·.id)).Nodup ∧ ∀ y ∈ r.foldl insertLayer base, y ∈ base ∨ y ∈ r := by
+theorem cnt_foldl_insertLayer (defs : List LayerDef) (a : Nat) : ∀ (r base : List MLayer),
+    List.count a (allP defs (r.foldl insertLayer base)) ≤ List.count a (allP defs base) + List.count a (allP defs r) := by
   intro r
   induction r with
-  | nil => intro base h; exact ⟨by simpa using h, fun y hy => Or.inl hy⟩
+  | nil => intro base; simp [allP]
   | cons x r ih =>
-    intro base h
-    simp only [List.foldl_cons]
-    have hall : ((base.map (·.id)) ++ x.id :: r.map (·.id)).Nodup := by simpa using h
-    have hb : (base.map (·.id)).Nodup := (List.nodup_append.mp hall).1
-    have hx : x.id ∉ base.map (·.id) := by
-      intro hm
-      exact (List.nodup_append.mp hall).2.2 _ hm _ (List.mem_cons_self) rfl
-    have h1 := ids_insertLayer base x hb hx
-    -- the ids of `insertLayer base x ++ r` are still distinct
-    have hnext : ((insertLayer base x ++ r).map (·.id)).Nodup := by
-      rw [List.map_append]
-      refine List.nodup_append.mpr ⟨h1, (List.nodup_cons.mp (List.nodup_append.mp hall).2.1).2, ?_⟩
-      intro a ha b hb' hab
-      subst hab
-      obtain ⟨y, hy, rfl⟩ := List.mem_map.mp ha
-      rcases mem_insertLayer hy with h2 | h2
-      · exact (List.nodup_append.mp hall).2.2 _ (List.mem_map_of_mem h2) _ (List.mem_cons_of_mem _ hb') rfl
-      · rw [h2] at hb'
-        exact (List.nodup_cons.mp (List.nodup_append.mp hall).2.1).1 hb'
-    obtain ⟨i1, i2⟩ := ih (insertLayer base x) hnext
-    refine ⟨i1, fun y hy => ?_⟩
-    rcases i2 y hy with h2 | h2
-    · rcases mem_insertLayer h2 with h3 | h3
-      · exact Or.inl h3
-      · exact Or.inr (by rw [h3]; exact List.mem_cons_self)
-    · exact Or.inr (List.mem_cons_of_mem _ h2)
+    intro base
+    simp only [List.foldl_cons, allP_cons, List.count_append]
+    have h1 := ih (insertLayer base x)
+    have h2 := cnt_insertLayer defs a base x
+    omega
 
-theorem ids_filterMap_mk (defs : List LayerDef) : ∀ (top : List Nat), top.Nodup →
-    ((top.filterMap (mkLayer defs)).map (·.id)).Nodup ∧ ∀ y ∈ top.filterMap (mkLayer defs), y.id ∈ top := by
+theorem cnt_filterMap_mk (defs : List LayerDef) (hr : refsUp defs = true) (a : Nat) : ∀ top : List Nat,
+    List.count a (allP defs (top.filterMap (mkLayer defs))) ≤ List.count a (top.flatMap (tree defs defs.length)) := by
   intro top
   induction top with
-  | nil => intro _; simp
+  | nil => simp [allP]
   | cons t r ih =>
-    intro h
-    obtain ⟨ht, hr⟩ := List.nodup_cons.mp h
-    obtain ⟨i1, i2⟩ := ih hr
     cases hm : mkLayer defs t with
     | none =>
-      simp only [List.filterMap_cons, hm]
-      exact ⟨i1, fun y hy => List.mem_cons_of_mem _ (i2 y hy)⟩
+      simp only [List.filterMap_cons, hm, List.flatMap_cons, List.count_append]
+      omega
     | some nl =>
-      simp only [List.filterMap_cons, hm]
-      have hid : nl.id = t := by
-        unfold mkLayer at hm
-        cases hg : defs[t]? with
-        | none => rw [hg] at hm; simp at hm
-        | some d => rw [hg] at hm; simp only [Option.map_some, Option.some.injEq] at hm; rw [← hm]
-      refine ⟨?_, ?_⟩
-      · simp only [List.map_cons]
-        refine List.nodup_cons.mpr ⟨?_, i1⟩
-        intro hmem
-        obtain ⟨y, hy, hyid⟩ := List.mem_map.mp hmem
-        exact ht (by rw [← hid, ← hyid]; exact i2 y hy)
-      · intro y hy
-        rcases List.mem_cons.mp hy with rfl | hy'
-        · rw [hid]; exact List.mem_cons_self
-        · exact List.mem_cons_of_mem _ (i2 y hy')
+      simp only [List.filterMap_cons, hm, List.flatMap_cons, List.count_append, allP_cons, pend_mk hr hm]
+      omega
 
-theorem init_ninv (defs : List LayerDef) (top : List Nat) (hnd : top.Nodup) :
+theorem init_ninv (defs : List LayerDef) (hr : refsUp defs = true) (top : List Nat)
+    (hnd : (top.flatMap (tree defs defs.length)).Nodup) :
     NInv defs { layers := initLayersR defs top } := by
-  obtain ⟨h1, _⟩ := ids_filterMap_mk defs top hnd
-  have hsrc : ∀ y ∈ top.filterMap (mkLayer defs), ∃ d, defs[y.id]? = some d ∧ y.depth = d.depth ∧ (∀ c ∈ y.caps, c ∈ d.caps) ∧ y.ends = [] := by
+  have hmemI : ∀ y ∈ initLayersR defs top, y ∈ top.filterMap (mkLayer defs) := by
     intro y hy
-    obtain ⟨id, _, hm⟩ := List.mem_filterMap.mp hy
-    unfold mkLayer at hm
-    cases hg : defs[id]? with
-    | none => rw [hg] at hm; simp at hm
-    | some d =>
-      rw [hg] at hm
-      simp only [Option.map_some, Option.some.injEq] at hm
-      subst hm
-      exact ⟨d, hg, rfl, fun c hc => hc, rfl⟩
-  unfold initLayersR
-  cases hf : top.filterMap (mkLayer defs) with
-  | nil => exact ⟨by simp, fun y hy => by simp at hy⟩
-  | cons l0 r =>
-    simp only
-    rw [hf] at h1 hsrc
-    obtain ⟨i1, i2⟩ := ids_fold_insertLayer r [l0] (by simpa using h1)
-    refine ⟨ids_sortLayers _ i1, ?_⟩
-    intro y hy
-    have hy' : y ∈ l0 :: r := by
-      rcases i2 y (mem_sortLayers hy) with h | h
+    unfold initLayersR at hy
+    cases hf : top.filterMap (mkLayer defs) with
+    | nil => rw [hf] at hy; simp at hy
+    | cons l0 r =>
+      rw [hf] at hy
+      simp only at hy
+      rcases mem_fold_insertLayer r [l0] y (mem_sortLayers hy) with h | h
       · simp at h; rw [h]; exact List.mem_cons_self
       · exact List.mem_cons_of_mem _ h
-    obtain ⟨d, hd, hdp, hc, he⟩ := hsrc y hy'
-    exact ⟨d, hd, hdp, hc, fun e hee => by rw [he] at hee; simp at hee⟩
+  refine ⟨?_, ?_⟩
+  · refine List.nodup_iff_count.mpr fun a => ?_
+    have h0 := List.nodup_iff_count.mp hnd a
+    have h1 := cnt_filterMap_mk defs hr a top
+    show List.count a (allP defs (initLayersR defs top)) ≤ 1
+    unfold initLayersR
+    cases hf : top.filterMap (mkLayer defs) with
+    | nil => simp [allP]
+    | cons l0 r =>
+      simp only
+      rw [hf] at h1
+      have h2 := cnt_sortLayers defs a (r.foldl insertLayer [l0])
+      have h3 := cnt_foldl_insertLayer defs a r [l0]
+      simp only [allP_cons, List.count_append] at h1 h3
+      have : List.count a (allP defs []) = 0 := by simp [allP]
+      omega
+  · intro y hy
+    obtain ⟨id, _, hm⟩ := List.mem_filterMap.mp (hmemI y hy)
+    obtain ⟨dj, hdj, hidj, hdepj, hcapsj, hendsj⟩ := mkLayer_some hm
+    refine ⟨dj, [], by rw [hidj]; exact hdj, hdepj, by rw [hcapsj]; rfl, ?_⟩
+    intro e he
+    rw [hendsj] at he
+    simp at he
 
 /-- Along the whole run: every End closes the top of the global stack (the run with the ghost stack
 never fails), the stack is sorted by end and is a permutation of all layers' end stacks. -/
-theorem iterG_well_nested (defs : List LayerDef) (hn : DefsNice defs) (hni : noInj defs = true)
-    (hx : crossNice defs = true) (n : Nat) : ∀ (k : Nat) (st st' : MSt) (G : List Nat),
+theorem iterG_well_nested (defs : List LayerDef) (hn : DefsNice defs) (hr : refsUp defs = true)
+    (hx : crossNice defs = true) (ht : injTieOkP defs = true) (n : Nat) : ∀ (k : Nat) (st st' : MSt) (G : List Nat),
     OInv st → NInv defs st → G.Pairwise (· ≤ ·) → G.Perm (allEnds st.layers) → iterM defs n k st = some st' →
     ∃ G', iterG defs n k st G = some (st', G') ∧ G'.Pairwise (· ≤ ·) ∧ G'.Perm (allEnds st'.layers) := by
   intro k
@@ -632,16 +670,14 @@ theorem iterG_well_nested (defs : List LayerDef) (hn : DefsNice defs) (hni : noI
     | more evs st1 =>
       rw [hstep] at h
       simp only
-      obtain ⟨G1, g1, g2, g3, g4⟩ := stepM_well_nested defs hn hni hx n st st1 evs G ho hv h3 h4 hstep
+      obtain ⟨G1, g1, g2, g3, g4⟩ := stepM_well_nested defs hn hr hx ht n st st1 evs G ho hv h3 h4 hstep
       rw [g1]
       simp only
       have hlay : ∀ l ∈ st.layers, ∀ c ∈ l.caps, ∀ ids, c.kind = .inj ids → ∀ j ∈ ids, ∀ d', defs[j]? = some d' →
           ∀ c' ∈ d'.caps, c.s ≤ c'.s := by
         intro l hl c hc ids hk
-        obtain ⟨d, hd, _, hcd, _⟩ := hv.src l hl
-        have h1 := List.all_eq_true.mp hni d (List.mem_of_getElem? hd)
-        have h2 := List.all_eq_true.mp h1 c (hcd c hc)
-        rw [hk] at h2; simp at h2
+        obtain ⟨d, pre, hd, _, hcd, _⟩ := hv.src l hl
+        exact hn.2 d (List.mem_of_getElem? hd) c (by rw [hcd]; exact List.mem_append_right _ hc) ids hk
       exact ih st1 st' G1 (stepM_keeps_oinv defs hn n st st1 evs ho hlay hstep) g4 g2 g3 h
 
 theorem allEnds_nil_of : ∀ (ls : List MLayer), (∀ y ∈ ls, y.ends = []) → allEnds ls = [] := by
@@ -665,5 +701,138 @@ theorem defsNice_of_static {defs : List LayerDef} (h1 : (defs.all fun d => capsO
   intro d hd c hc ids hk
   have := List.all_eq_true.mp (List.all_eq_true.mp h2 d hd) c hc
   rw [hk] at this; simp at this
+
+/-- The decidable premise of `merge_well_nested_dynamic_partial`: every layer's captures in order and
+the layers an injection capture creates behind it (`defsNiceD`), injections refer to later table
+entries (`refsUp`), every layer id referenced at most once from `top` and the reachable injection
+captures (`closureNodup`), span captures of different layers laminar with oriented start ties
+(`crossNice`), no span can be open at the byte where a deeper layer appears with a span capture
+(`injTieOkP`). -/
+def dynNice (defs : List LayerDef) (top : List Nat) : Bool :=
+  defsNiceD defs && refsUp defs && closureNodup defs top && crossNice defs && injTieOkP defs
+
+/-! ### static layers are a special case -/
+
+theorem injIds_of_noInj {defs : List LayerDef} (h : noInj defs = true) {d : LayerDef} (hd : d ∈ defs)
+    {c : RCap} (hc : c ∈ d.caps) : injIds c = [] := by
+  have := List.all_eq_true.mp (List.all_eq_true.mp h d hd) c hc
+  unfold injIds
+  cases hk : c.kind with
+  | hl _ => rfl
+  | inj ids => rw [hk] at this; simp at this
+
+theorem refsOf_of_noInj {defs : List LayerDef} (h : noInj defs = true) (j : Nat) : refsOf defs j = [] := by
+  unfold refsOf
+  cases hd : defs[j]? with
+  | none => rfl
+  | some d =>
+    simp only [refsC]
+    refine List.eq_nil_iff_forall_not_mem.mpr fun x hx => ?_
+    obtain ⟨c, hc, hxc⟩ := List.mem_flatMap.mp hx
+    rw [injIds_of_noInj h (List.mem_of_getElem? hd) hc] at hxc
+    simp at hxc
+
+theorem tree_of_noInj {defs : List LayerDef} (h : noInj defs = true) (k j : Nat) : tree defs k j = [j] := by
+  cases k with
+  | zero => rfl
+  | succ k => simp [tree, refsOf_of_noInj h]
+
+theorem dynNice_of_static {defs : List LayerDef} {top : List Nat} (h : staticNice defs = true) (hnd : top.Nodup) :
+    dynNice defs top = true := by
+  simp only [staticNice, Bool.and_eq_true] at h
+  obtain ⟨⟨h1, h2⟩, h3⟩ := h
+  have hinj : ∀ d ∈ defs, ∀ c ∈ d.caps, injIds c = [] := fun d hd c hc => injIds_of_noInj h2 hd hc
+  have hk : ∀ d ∈ defs, ∀ c ∈ d.caps, ∀ ids, c.kind = .inj ids → False := by
+    intro d hd c hc ids hk
+    have := List.all_eq_true.mp (List.all_eq_true.mp h2 d hd) c hc
+    rw [hk] at this; simp at this
+  simp only [dynNice, Bool.and_eq_true]
+  refine ⟨⟨⟨⟨?_, ?_⟩, ?_⟩, h3⟩, ?_⟩
+  · simp only [defsNiceD, Bool.and_eq_true]
+    refine ⟨h1, List.all_eq_true.mpr fun d hd => List.all_eq_true.mpr fun c hc => ?_⟩
+    cases hkk : c.kind with
+    | hl _ => rfl
+    | inj ids => exact absurd (hk d hd c hc ids hkk) id
+  · unfold refsUp
+    refine List.all_eq_true.mpr fun i _ => ?_
+    cases hd : defs[i]? with
+    | none => rfl
+    | some d =>
+      simp only
+      refine List.all_eq_true.mpr fun c hc => ?_
+      cases hkk : c.kind with
+      | hl _ => rfl
+      | inj ids => exact absurd (hk d (List.mem_of_getElem? hd) c hc ids hkk) id
+  · unfold closureNodup
+    have : top.flatMap (tree defs defs.length) = top := by
+      induction top with
+      | nil => rfl
+      | cons t r ih =>
+        simp only [List.flatMap_cons, tree_of_noInj h2]
+        rw [ih (List.nodup_cons.mp hnd).2]
+        rfl
+    rw [this]
+    exact decide_eq_true hnd
+  · unfold injTieOkP
+    refine List.all_eq_true.mpr fun i _ => ?_
+    cases hd : defs[i]? with
+    | none => rfl
+    | some d =>
+      simp only
+      refine List.all_eq_true.mpr fun idx _ => ?_
+      cases hc : d.caps[idx]? with
+      | none => rfl
+      | some c =>
+        simp only
+        rw [hinj d (List.mem_of_getElem? hd) c (List.mem_of_getElem? hc)]
+        rfl
+
+/-- a finished run is a number of iterations followed by the final step -/
+theorem runM_iter (defs : List LayerDef) (n : Nat) : ∀ (fuel : Nat) (st : MSt), (runM defs n fuel st).2 = true →
+    ∃ k st' evs, iterM defs n k st = some st' ∧ stepM defs n st' = .done evs := by
+  intro fuel
+  induction fuel with
+  | zero => intro st h; simp [runM] at h
+  | succ fuel ih =>
+    intro st h
+    unfold runM at h
+    cases hstep : stepM defs n st with
+    | done evs => exact ⟨0, st, evs, rfl, hstep⟩
+    | more evs st1 =>
+      rw [hstep] at h
+      simp only at h
+      obtain ⟨k, st', evs', h1, h2⟩ := ih st1 h
+      refine ⟨k + 1, st', evs', ?_, h2⟩
+      unfold iterM
+      rw [hstep]
+      exact h1
+
+/-- with ordered layers the iterator only finishes when no layer is left -/
+theorem done_layers_nil {defs : List LayerDef} {n : Nat} {st : MSt} {evs : List Ev} (ho : OInv st)
+    (h : stepM defs n st = .done evs) : st.layers = [] := by
+  obtain ⟨layers, off, last⟩ := st
+  cases layers with
+  | nil => rfl
+  | cons l rest =>
+    exfalso
+    obtain ⟨k, hk, _⟩ := sorted_head_min ho.sorted
+    unfold stepM at h
+    simp only at h
+    cases hact : action l with
+    | final => exact absurd (action_final hact) (by rw [hk]; simp)
+    | pop eb ends' => rw [hact] at h; simp [stepPop] at h
+    | take c caps' =>
+      rw [hact] at h
+      simp only at h
+      cases hkind : c.kind with
+      | inj ids => rw [hkind] at h; simp [stepInj] at h
+      | hl hh =>
+        rw [hkind] at h
+        simp only at h
+        split at h
+        · simp [stepSkip] at h
+        · split at h
+          · simp [stepStart] at h
+          · simp [stepSkip] at h
 
 end TsVerif.C17
